@@ -13,7 +13,13 @@ EXTENDS Naturals, Integers, Sequences, FiniteSets, TLC
 
 CONSTANTS IncMax,     \* Incarnation::MAX (65535 in the code)
           TokenMod,   \* timer token modulus (256)
-          ProbeMod    \* probe number modulus (256)
+          ProbeMod,   \* probe number modulus (256)
+          Fixes       \* the "fix:" commits of /repo the specification follows (all of them, normally);
+                      \* leaving one out gives the behaviour of the pinned tree before that repair, which
+                      \* the self-test uses to show that TLC finds each defect in the model as well
+
+Fixed(sha) == sha \in Fixes
+AllFixes == {"654ac52", "3f5c312", "66b62cc", "7418747", "f6702a7"}
 
 NoId == <<0, 0>>
 Addr(id) == id[1]
